@@ -73,18 +73,32 @@ func c10CheckSymbolicHash(f c10Lookup, rm *refForest, v *refView, tracked []int,
 }
 
 // c10CheckGetHash: one symbolic position.  exact: the forest stores every node (Pollard, full map).
-func c10CheckGetHash(f c10Lookup, v *refView, exact bool, id string, kfTag string, kfPred func(uint64) bool) {
+// Open finding F-C10-2: for a position >= 2^(TreeRows+1) that is a node in NEITHER numbering the
+// translation wraps around and lands on a stored node; carve-out predicate: alt != nil (allocated for
+// more rows) and p >= 2^(TreeRows+1).
+func c10CheckGetHash(f c10Lookup, v *refView, alt *refView, exact bool, id string) {
 	if verifParam("q", 1) != 3 {
 		return
 	}
 	p := verifNondetU64("pos")
 	got := f.GetHash(p)
 	ex, want := v.hashAtSym(p)
-	pred := kfPred(p)
+	if alt != nil {
+		// a map forest allocated for more rows than needed also answers to the position a node has in
+		// the allocated numbering (the repository's own tests query it that way); the two numberings
+		// share row 0 and are disjoint above it
+		ex2, want2 := alt.hashAtSym(p)
+		want = verifIteHash(ex, want, want2)
+		ex = verifIteBool(ex, true, ex2)
+	}
+	kf := false
+	if alt != nil {
+		kf = p >= (uint64(2) << v.rows)
+	}
 	if exact {
-		verifAssertKF(got == verifIteHash(ex, want, Hash{}), id+".GetHash", kfTag, pred)
+		verifAssertKF(got == verifIteHash(ex, want, Hash{}), id+".GetHash", "F-C10-2", kf)
 	} else {
-		verifAssertKF(got == (Hash{}) || verifIteBool(ex, got == want, false), id+".GetHash-true-or-zero", kfTag, pred)
+		verifAssertKF(verifIteBool(got == (Hash{}), true, verifIteBool(ex, got == want, false)), id+".GetHash-true-or-zero", "F-C10-2", kf)
 	}
 }
 
@@ -154,26 +168,26 @@ func HarnessC10Lookups() {
 			remembered = true
 		}
 	}
-	rows := v.rows
-	inRange := func(p uint64) bool { return p < (uint64(2) << rows) }
-	never := func(p uint64) bool { return false }
 	if w.p != nil {
 		c10CheckLeafLookups(w.p, w.rm, v, live, "C10.pollard", false)
-		c10CheckGetHash(w.p, v, true, "C10.pollard", "none", never)
+		c10CheckGetHash(w.p, v, nil, true, "C10.pollard")
 		verifAssert(uint64(len(w.p.NodeMap)) == w.p.NumLeaves-w.p.NumDels, "C10.pollard.count-consistent")
 		verifAssert(len(w.p.NodeMap) == len(live), "C10.pollard.tracked-count")
 	}
+	altOf := func(m *MapPollard) *refView {
+		if m.TotalRows > v.rows {
+			return w.rm.viewRows(m.TotalRows)
+		}
+		return nil
+	}
 	if w.full != nil {
 		c10CheckLeafLookups(w.full, w.rm, v, live, "C10.mapfull", undone || remembered)
-		// F-C10-2: with TotalRows != TreeRows positions >= 2^(rows+1) are translated onto real nodes
-		oob := func(p uint64) bool { return !inRange(p) }
-		c10CheckGetHash(w.full, v, true, "C10.mapfull", "F-C10-2", oob)
+		c10CheckGetHash(w.full, v, altOf(w.full), true, "C10.mapfull")
 		verifAssert(w.full.CachedLeaves.Length() == len(live), "C10.mapfull.tracked-count")
 	}
 	if w.part != nil {
 		c10CheckLeafLookups(w.part, w.rm, v, w.partHeld, "C10.mappartial", false)
-		oob := func(p uint64) bool { return !inRange(p) }
-		c10CheckGetHash(w.part, v, false, "C10.mappartial", "F-C10-2", oob)
+		c10CheckGetHash(w.part, v, altOf(w.part), false, "C10.mappartial")
 		verifAssert(w.part.CachedLeaves.Length() == len(w.partHeld), "C10.mappartial.tracked-count")
 	}
 	verifReach("C10.lookups")
